@@ -9,7 +9,7 @@
    nx) called at wall time now - what cacheCtl.Get does when it promotes a redis hit into the memory cache with the
    ORIGINAL storedTime / expireTime (s far in the past).  [hit_src mx evs k m s x]: m was supplied for k by a Store
    event at s (then x = s + lifetime of m) or by a StoreAt event with exactly these s and x. *)
-From Mos Require Import Base.Prelude Codec.Msg Cache.CachePolicy Cache.CachePolicyProofs.
+From Mos Require Import Base.Prelude Codec.Msg Cache.CachePolicy Cache.CachePolicyProofs Cache.CacheTier Cache.CacheTierProofs.
 Local Open Scope Z_scope.
 
 (* ------------------------------------------------------------------ TTL ageing *)
@@ -188,6 +188,49 @@ Print Assumptions C08_restarted_lifetime_refuted.
 (* a promotion is set-if-absent: it never displaces what the memory cache already holds for the key (C08_negative_nx
    below covers it: neg_keeps has a StoreAt clause) *)
 
+(* ------------------------------------------------------------------ the two-tier cache: memory + shared redis (round 2) *)
+
+(* Model Cache/CacheTier.v: cacheCtl with both backends.  Store writes the memory cache and (asynchronously, SET [NX] PX)
+   redis; Get asks the memory cache, then redis, and PROMOTES a redis hit into the memory cache with the instants read
+   from redis (the original ones, cut to whole Unix seconds); the memory cache and redis may lose any key at any time
+   (CtDrop: eviction / restart; CtRedisDrop), other proxy instances write the same redis (CtForeign).
+   In EVERY such history (clock assumptions as before, ct_hist_ok; nothing assumed about foreign stores or drops), a hit
+   at wall time t - from either tier, however late in its life the answer was copied into the memory cache - reports
+   an expireTime x with t < x + 2 s. *)
+Theorem C08_tier_expiry : forall lag mx clk0 evs t k st' m' s x,
+  SECOND <= lag <= 2 * SECOND -> SECOND <= mx ->
+  ct_hist_ok lag mx (ct_init clk0) (evs ++ [CtGet t k]) ->
+  ct_get (fst (ct_run mx (ct_init clk0) evs)) t k = (st', OHit m' s x) ->
+  t < x + 2 * SECOND.
+Proof.
+  intros lag mx clk0 evs t k st' m' s x [Hl1 Hl2] Hmx Hok H.
+  apply Z.lt_le_trans with (x + lag); [exact (ct_hit_before_expiry lag mx clk0 evs t k st' m' s x Hmx Hl1 Hok H)|].
+  apply Zplus_le_compat_l. exact Hl2.
+Qed.
+Print Assumptions C08_tier_expiry.
+
+(* ... and (s, x) are the instants of an answer m that this proxy stored for this key at s0 (then s = s0, x = s0 + lifetime,
+   or both cut to the whole second when the answer came back through redis) or that another instance stored; the served
+   message is m aged by the whole seconds since s.  So x <= s0 + lifetime and s <= s0: with C08_tier_expiry nothing is
+   served at s0 + lifetime + 2 s or later, and every served TTL is <= max 1 (ttl - whole seconds since the fetch). *)
+Theorem C08_tier_ttl_bound : forall mx clk0 evs t k st' m' s x,
+  ct_get (fst (ct_run mx (ct_init clk0) evs)) t k = (st', OHit m' s x) ->
+  exists m,
+    ((exists s0 eps, In (CtStore s0 eps k (Some m) true) evs /\ h_tc (m_hdr m) = false /\
+        ((s = s0 /\ x = s0 + msg_lifetime mx m) \/ (s = unix_floor s0 /\ x = unix_floor (s0 + msg_lifetime mx m)))) \/
+     (exists now s0 x0 nx, In (CtForeign now s0 x0 k m nx) evs /\ s = unix_floor s0 /\ x = unix_floor x0)) /\
+    m' = subtract_ttl (elapsed_secs t s) m /\
+    Forall2 (fun r r' => if cp_is_opt r then r' = r
+                         else r' = set_ttl r (N.max 1 (r_ttl r - elapsed_secs t s))) (rrs m) (rrs m') /\
+    m_hdr m' = m_hdr m /\ m_qs m' = m_qs m /\
+    (0 <= t - s < two32 * SECOND -> Z.of_N (elapsed_secs t s) = (t - s) / SECOND).
+Proof. exact ct_hit_ttl_bound. Qed.
+Print Assumptions C08_tier_ttl_bound.
+
+Theorem C08_unix_floor : forall t, unix_floor t <= t < unix_floor t + SECOND.
+Proof. intros t. split; [apply unix_floor_le|apply unix_floor_gt]. Qed.
+Print Assumptions C08_unix_floor.
+
 (* ------------------------------------------------------------------ never cached *)
 
 (* an absent (nil) or truncated response: Store returns before touching the backend, in every cp_state *)
@@ -302,6 +345,22 @@ Example C08_example_promotion :
   [ [0]; [3; 1]; [0]; [6; 40000; 102000; 239; 9; 32768]; [4; 800]; [0]; [5] ] /\
   hist_ok SECOND H6 (init_state 0) ex_promo_hist.
 Proof. split; [vm_compute; reflexivity|]. apply hist_okb_sound. vm_compute. reflexivity. Qed.
+
+(* two-tier history (Unix phase 0.25 s): a TTL-6 answer stored at 1000.25 s (memory + redis); the memory cache loses it at
+   1004.6 s; the Get at 1004.9 s is a redis hit and is promoted with stored = 1000 s, expire = 1006 s (aged by 4 s:
+   TTLs 6 -> 2, 300 -> 296); at 1005.6 s the promoted entry is served from memory; at 1008.75 s (clock 1008) nothing is
+   served although the entry entered the memory cache only 3.85 s earlier; ct_hist_ok holds *)
+Definition ex_tier_hist : list ct_event :=
+  [ CtTick 1000; CtStore (ms 1000250) 1000 1 (Some (ex_msg 0 false [6; 300]%N)) true;
+    CtTick 1004; CtDrop 1; CtGet (ms 1004900) 1;
+    CtTick 1005; CtGet (ms 1005600) 1;
+    CtTick 1008; CtGet (ms 1008750) 1 ].
+
+Example C08_example_tier :
+  map show (snd (ct_run H6 (ct_init 0) ex_tier_hist)) =
+  [ [0]; [3; 6]; [0]; [1]; [6; 1000000; 1006000; 2; 296; 32768]; [0]; [6; 1000000; 1006000; 1; 295; 32768]; [0]; [5] ] /\
+  ct_hist_ok SECOND H6 (ct_init 0) ex_tier_hist.
+Proof. split; [vm_compute; reflexivity|]. apply ct_hist_okb_sound. vm_compute. reflexivity. Qed.
 
 (* the clock assumption is what bounds the serving time: with a stuck clock (no Tick) the same cp_entry is served forever *)
 Example C08_example_stuck_clock :
